@@ -388,15 +388,17 @@ Section Loop.
       split; (split; [intros; contradiction|assumption]).
   Qed.
 
-  Lemma rws_spec m C a cls :
-    env_ok -> minv m -> respects n isf (bidm m) -> ent (mn_split m) C a cls ->
-    (forall todo, (forall x y, x < n -> y < n -> bidm m x = bidm m y ->
-                     bidm m (delta x a) = C -> bidm m (delta y a) <> C -> In (bidm m x) todo) ->
-                  hinv n alpha delta (bidm m) (actm m) todo a C) ->
-    let m1 := refine_with_splitter delta m C a cls in
-    minv m1 /\ respects n isf (bidm m1) /\ hinv n alpha delta (bidm m1) (actm m1) [] a C /\ meas m1 <= meas m.
+  Definition rws_todo (m : mini) (C a cls : nat) : list nat :=
+    let set0 := cand m (bp_elements (pc (mn_pred m) a) cls) [] in
+    (if existsb (Nat.eqb C) set0 then fs_remove set0 C else set0) ++ (if existsb (Nat.eqb C) set0 then [C] else []).
+
+  Lemma rws_setup m C a cls :
+    env_ok -> minv m -> ent (mn_split m) C a cls ->
+    1 <= C < km m /\ a < alpha /\ todo_ok m a C (rws_todo m C a cls) /\
+    (forall x y, x < n -> y < n -> bidm m x = bidm m y ->
+                 bidm m (delta x a) = C -> bidm m (delta y a) <> C -> In (bidm m x) (rws_todo m C a cls)).
   Proof.
-    intros Env I HR He Hpick m1. unfold m1. rewrite rws_unfold. cbv zeta.
+    intros Env I He. unfold rws_todo. cbv zeta.
     destruct (si_ent _ _ _ _ _ _ _ (mi_sinv _ I) C a cls He) as [HC [Ha [Hcls Hclass]]].
     destruct (cand_spec m (bp_elements (pc (mn_pred m) a) cls) [] (NoDup_nil _)) as [Hnd0 Hin0].
     set (set0 := cand m (bp_elements (pc (mn_pred m) a) cls) []) in *.
@@ -412,7 +414,7 @@ Section Loop.
       - apply existsb_eqb_in in Hs. destruct (fs_remove_spec set0 C Hnd0) as [_ Hr]. rewrite in_app_iff, Hr. cbn [In].
         split; [intros [[H _]|[<-|[]]]; auto|]. intros H. destruct (Nat.eq_dec d C) as [->|Hne]; auto.
       - rewrite app_nil_r. reflexivity. }
-    assert (HT : todo_ok m a C todo).
+    split; [exact HC|]. split; [exact Ha|]. split.
     { split; [|split].
       - unfold todo. destruct (existsb (Nat.eqb C) set0) eqn:Hs.
         + destruct (fs_remove_spec set0 C Hnd0) as [Hr1 Hr2].
@@ -424,13 +426,30 @@ Section Loop.
         + rewrite app_nil_r. apply c_last_app. intros d Hd ->. apply existsb_eqb_in in Hd. congruence.
       - intros d Hd. apply Htodo_in, Hin0' in Hd. destruct Hd as [x [H1 [H2 [H3 H4]]]].
         split; [rewrite <- H3; apply minv_bid_range; assumption|]. exists x. auto. }
-    apply (rbws_fold a C Env Ha todo m I HR HC HT).
-    apply Hpick. intros x y Hx Hy Hb HxC HyC. apply Htodo_in, Hin0'. exists x.
+    intros x y Hx Hy Hb HxC HyC. apply Htodo_in, Hin0'. exists x.
     split; [exact Hx|]. split; [exact HxC|]. split; [reflexivity|].
     assert (Hne : x <> y) by (intros ->; contradiction).
     eapply (blk_two_size n); [apply (fw_base _ _ (mi_main _ I))| | |exact Hne].
     - apply (fw_bid _ _ (mi_main _ I)). exact Hx.
     - rewrite Hb. apply (fw_bid _ _ (mi_main _ I)). exact Hy.
+  Qed.
+
+  Lemma rws_unfold2 m C a cls :
+    refine_with_splitter delta m C a cls =
+    fold_left (fun m b => refine_block_with_splitter delta m a C b) (rws_todo m C a cls) m.
+  Proof. rewrite rws_unfold. reflexivity. Qed.
+
+  Lemma rws_spec m C a cls :
+    env_ok -> minv m -> respects n isf (bidm m) -> ent (mn_split m) C a cls ->
+    (forall todo, (forall x y, x < n -> y < n -> bidm m x = bidm m y ->
+                     bidm m (delta x a) = C -> bidm m (delta y a) <> C -> In (bidm m x) todo) ->
+                  hinv n alpha delta (bidm m) (actm m) todo a C) ->
+    let m1 := refine_with_splitter delta m C a cls in
+    minv m1 /\ respects n isf (bidm m1) /\ hinv n alpha delta (bidm m1) (actm m1) [] a C /\ meas m1 <= meas m.
+  Proof.
+    intros Env I HR He Hpick m1. unfold m1. rewrite rws_unfold2.
+    destruct (rws_setup m C a cls Env I He) as [HC [Ha [HT Hcov]]].
+    apply (rbws_fold a C Env Ha _ m I HR HC HT). apply Hpick. exact Hcov.
   Qed.
 
   (* ---------------------------------------------------------------- pick_splitter *)
